@@ -1245,7 +1245,7 @@ class Interp:
         self.types["int"].fn = _int
         self.types["str"].fn = lambda x="": self.py_str(x)
         self.types["dict"].fn = lambda *a, **k: dict(*a, **k)
-        self.types["list"].fn = lambda x=(): list(self.iterate(x))
+        self.types["list"].fn = lambda x=(): x.clone() if isinstance(x, (SeqList, ArrList)) else list(self.iterate(x))
         self.types["tuple"].fn = lambda x=(): tuple(self.iterate(x))
         self.types["bytearray"].fn = _bytearray
         self.types["bool"].fn = lambda x=False: self.truth_sym(x)
